@@ -226,6 +226,26 @@ func (x *Exec) isBoxed(o types.Object) bool {
 func (x *Exec) readGlobal(s *State, o *types.Var) Val {
 	base := "G$" + sanitize(o.Pkg().Path()+"."+o.Name())
 	ls := leavesOf(o.Type())
+	// first read on this path: a variable initialised with a literal keeps that value
+	// (assumption: package-level tables are not reassigned elsewhere)
+	if len(ls) > 0 {
+		if _, seen := s.heap[base+"$"+ls[0].path]; !seen && !s.ginit[o] {
+			if init := x.eng.globalInit(o); init != nil {
+				if s.ginit == nil {
+					s.ginit = map[*types.Var]bool{}
+				}
+				s.ginit[o] = true
+				p := x.eng.pkgs[o.Pkg().Path()]
+				gx := &Exec{eng: x.eng, fn: &FnCtx{eng: x.eng, pkg: p, name: "init " + o.Name(), parent: nil, depth: maxInlineDepth}}
+				saved := s.written
+				v := gx.eval(s, init)
+				v = gx.convertTo(s, v, o.Type(), init.Pos())
+				x.writeGlobal(s, o, v)
+				s.written = saved
+				x.eng.note("package-level variables initialised with literals are assumed to keep their initial value (" + o.Pkg().Name() + "." + o.Name() + ")")
+			}
+		}
+	}
 	terms := make([]string, len(ls))
 	for i, l := range ls {
 		name := base + "$" + l.path
@@ -258,6 +278,62 @@ func (x *Exec) writeGlobal(s *State, o *types.Var, v Val) {
 			s.written[name] = true
 		}
 	}
+}
+
+// globalInit returns the initialiser of a package-level variable when it is a literal table
+// (composite literal of constants), nil otherwise.
+func (e *Engine) globalInit(o *types.Var) ast.Expr {
+	if r, ok := e.ginitCache[o]; ok {
+		return r
+	}
+	var res ast.Expr
+	if p, ok := e.pkgs[o.Pkg().Path()]; ok {
+		for _, f := range p.Syntax {
+			for _, d := range f.Decls {
+				gd, ok := d.(*ast.GenDecl)
+				if !ok || gd.Tok != token.VAR {
+					continue
+				}
+				for _, sp := range gd.Specs {
+					vs := sp.(*ast.ValueSpec)
+					for i, n := range vs.Names {
+						if p.TypesInfo.Defs[n] == o && i < len(vs.Values) && len(vs.Values) == len(vs.Names) {
+							if literalOnly(p.TypesInfo, vs.Values[i]) {
+								res = vs.Values[i]
+							}
+						}
+					}
+				}
+			}
+		}
+	}
+	e.ginitCache[o] = res
+	return res
+}
+
+func literalOnly(info *types.Info, e ast.Expr) bool {
+	ok := true
+	ast.Inspect(e, func(n ast.Node) bool {
+		switch v := n.(type) {
+		case *ast.CallExpr:
+			if tv, has := info.Types[v.Fun]; !has || !tv.IsType() {
+				ok = false
+			}
+		case *ast.FuncLit:
+			ok = false
+		case *ast.Ident:
+			if obj, isVar := info.Uses[v].(*types.Var); isVar && !obj.IsField() {
+				ok = false
+			}
+		}
+		return ok
+	})
+	if _, isLit := unparen(e).(*ast.CompositeLit); !isLit {
+		if u, isU := unparen(e).(*ast.UnaryExpr); !isU || u.Op != token.AND {
+			return false
+		}
+	}
+	return ok
 }
 
 // globalNonNil: package-level error sentinels (initialised by a call) are non-nil.
